@@ -16,6 +16,7 @@ import (
 	"mellium.im/xmpp"
 	"mellium.im/xmpp/jid"
 	"mellium.im/xmpp/stream"
+	"mellium.im/xmpp/websocket"
 
 	"verifharness/common"
 )
@@ -571,6 +572,13 @@ func (c *ctx) checkO(co caseOpt, ns string, body []byte, progs []Prog, class str
 		}
 		typ := attrVal(e.start.Attr, "type")
 		needs := e.start.Name.Local == "iq" && (e.start.Name.Space == NSClient || e.start.Name.Space == NSServer) && (typ == "get" || typ == "set")
+		// a handler that returns with an element of its own still open (or after an end tag the
+		// encoder refused) leaves the stream inside an element; one that tried to write after an
+		// abandoned Send had left it there: the session ends before anything else is looked at
+		if (st == "open" && Unbalanced(w)) || (st == "broken" && len(w) > 0) {
+			wantN, wantEnd = k+1, "output-broken"
+			break
+		}
 		if needs {
 			// a get/set IQ whose from does not parse cannot be answered: the session ends with
 			// the parse error (the handlers of this runner never write a reply)
@@ -588,13 +596,7 @@ func (c *ctx) checkO(co caseOpt, ns string, body []byte, progs []Prog, class str
 			wantN, wantEnd = k+1, "output-closed"
 			break
 		}
-		if st == "broken" && (needs || len(w) > 0) {
-			wantN, wantEnd = k+1, "output-broken"
-			break
-		}
-		// a handler that returns with an element of its own still open (or after an end tag the
-		// encoder refused) leaves the stream inside an element: the session ends
-		if st == "open" && Unbalanced(w) {
+		if st == "broken" && needs {
 			wantN, wantEnd = k+1, "output-broken"
 			break
 		}
@@ -682,6 +684,114 @@ func (c *ctx) checkO(co caseOpt, ns string, body []byte, progs []Prog, class str
 	}
 	// the handlers of this property write only what their program says: nothing else is
 	// written except the default replies of C07 (not judged here)
+}
+
+// wsReal serves `body` on a session negotiated end to end by the websocket package's own
+// negotiator (RFC 7395 framing: the peer answers <open/> with <open/> and an empty feature
+// list): no stream header wraps the input, every element declares its own namespaces, the
+// peer ends the stream with <close/>.  Same protocol line, observation and oracle as the
+// sessions whose WebSocket flag the harness sets itself.
+func (c *ctx) wsReal(body string, progs []Prog, class string) {
+	r := c.r
+	open := `<open xmlns="` + NSFraming + `" from="example.com" id="wsid" version="1.0" xml:lang="en"/>` +
+		`<stream:features xmlns:stream="` + NSStream + `"></stream:features>`
+	out := &common.SafeBuffer{}
+	neg := websocket.Negotiator(func(*xmpp.Session, *xmpp.StreamConfig) xmpp.StreamConfig { return xmpp.StreamConfig{} })
+	var s *xmpp.Session
+	var err error
+	okNeg := common.WithTimeout(5*time.Second, func() {
+		s, err = xmpp.NewSession(context.Background(), RemoteJID, LocalJID, rwPair{strings.NewReader(open + body), out}, xmpp.Secure, neg)
+	})
+	if !okNeg || err != nil || s == nil {
+		r.Hist["websocket-real/negotiation-failed"]++
+		return
+	}
+	var res Result
+	res.LocalBare = s.LocalAddr().Bare().String()
+	k := 0
+	rec := xmpp.HandlerFunc(func(t xmlstream.TokenReadEncoder, start *xml.StartElement) error {
+		p := Prog{Ret: "ok"}
+		if k < len(progs) {
+			p = progs[k]
+		}
+		k++
+		res.Invs = append(res.Invs, Invocation{Start: start.Copy()})
+		return Exec(p, t, &res.Invs[len(res.Invs)-1])
+	})
+	skip := out.Len()
+	done := common.WithTimeout(10*time.Second, func() {
+		res.Panic = common.Recover(func() { res.Err = s.Serve(rec) })
+	})
+	// the tokens of the body as the session's decoder sees them (no enclosing stream element)
+	var toks []xml.Token
+	d := xml.NewDecoder(strings.NewReader(body))
+	for {
+		t, e := d.Token()
+		if e != nil {
+			break
+		}
+		toks = append(toks, xml.CopyToken(t))
+	}
+	line := MarkWS(CaseLine(NSClient, res.LocalBare, toks, progs), true)
+	lines := []string{r.Prop + " " + line, "#wsreal " + common.HexS(body)}
+	switch {
+	case !done:
+		r.Line(line, "STALL")
+		r.Fail("terminates", "stall", lines, "Serve did not return")
+		return
+	case res.Panic != "":
+		r.Line(line, "PANIC")
+		r.Fail("no-panic", "panic", lines, res.Panic)
+		return
+	}
+	// what Serve wrote, without the closing element of the framing
+	o := string(out.Bytes()[skip:])
+	wsClosed := false
+	if i := strings.LastIndex(o, "<close"); i >= 0 && strings.Contains(o[i:], NSFraming) {
+		o, wsClosed = o[:i], true
+	}
+	els, _, _ := Written(NSClient, []byte(o))
+	wobs, _ := WrittenObs(els)
+	cls := ErrClass(res.Err)
+	r.Line(line, fmt.Sprintf("%s %s %s", EncInvs(res.Invs), wobs, cls))
+	ex := expectWS(toks, true)
+	r.Case(line, true, class+"/"+ex.end)
+	if len(res.Invs) != len(ex.elems) {
+		r.Fail("one-per-element", "count", lines, fmt.Sprintf("%d invocations, want %d", len(res.Invs), len(ex.elems)))
+	}
+	for k, inv := range res.Invs {
+		for _, t := range inv.Toks {
+			if c := streamLevelWS(t, true); c != "" {
+				r.Fail("stream-level-hidden", "visible/"+c, lines, fmt.Sprintf("invocation %d saw %s", k, common.EncTok(t)))
+			}
+		}
+		if c := streamLevelWS(inv.Start, true); c != "" {
+			r.Fail("stream-level-hidden", "visible/"+c, lines, fmt.Sprintf("invocation %d started at %s", k, common.EncTok(inv.Start)))
+		}
+		// from normalisation: the content namespace of a WebSocket stream is jabber:client
+		if k < len(ex.elems) {
+			want := ex.elems[k].start.Copy()
+			if (want.Name.Local == "iq" || want.Name.Local == "message" || want.Name.Local == "presence") && want.Name.Space == NSClient {
+				for i, a := range want.Attr {
+					if a.Name.Local == "from" && a.Name.Space == "" {
+						if a.Value == res.LocalBare {
+							want.Attr[i].Value = ""
+						}
+						break
+					}
+				}
+			}
+			if common.EncTok(want) != common.EncTok(inv.Start) {
+				r.Fail("from-blank", "start/websocket", lines, fmt.Sprintf("invocation %d started at %s, want %s", k, common.EncTok(inv.Start), common.EncTok(want)))
+			}
+		}
+	}
+	if !sameClass(ex.end, cls) {
+		r.Fail("ends-with", "end/websocket", lines, fmt.Sprintf("Serve returned %q (%v), want class %s", cls, res.Err, ex.end))
+	}
+	if !wsClosed {
+		r.Fail("closing-tag", "not-closed", lines, "no <close/> written")
+	}
 }
 
 // header runs a real negotiation (xmpp.NewNegotiator with the default configuration) against
@@ -1556,6 +1666,38 @@ func Run(r *common.Run) error {
 	}
 	r.Exhaustive = append(r.Exhaustive, fmt.Sprintf("WebSocket sessions: all sequences of <= 2 items out of %d (framing open / close / other at depth 0-2, prefixed, look-alikes in other namespaces, ordinary elements, constructs) x closed by <close/> or not x consumption patterns, and every item of the TCP alphabet", len(wsItems)))
 
+	// the same on sessions negotiated end to end by the websocket package
+	{
+		m := func(id string) string {
+			return `<message xmlns="jabber:client" id="` + id + `"><body>hi</body></message>`
+		}
+		cl := `<close xmlns="` + NSFraming + `"/>`
+		op := `<open xmlns="` + NSFraming + `" to="example.com" version="1.0"/>`
+		se := `<stream:error xmlns:stream="` + NSStream + `"><host-gone xmlns="urn:ietf:params:xml:ns:xmpp-streams"/></stream:error>`
+		bodies := []string{
+			cl,
+			m("a") + cl,
+			m("a") + ` ` + m("b") + cl + m("never"),
+			m("a") + op + m("never") + cl,
+			op,
+			`<iq xmlns="jabber:client" type="get" id="g1" from="a@example.org/r"><q xmlns="urn:q"/></iq>` + m("b") + cl,
+			`<message xmlns="jabber:client" id="n1"><fwd xmlns="urn:f">` + cl + `</fwd><body/></message>` + m("never") + cl,
+			`<message xmlns="jabber:client" id="n2">` + op + `<body/></message>` + m("never") + cl,
+			m("a") + `<stream xmlns="` + NSFraming + `"/>` + cl,
+			m("a") + `<close xmlns="urn:other"/>` + m("b") + cl,
+			m("a") + se + m("never"),
+			m("a") + `<!--c-->` + cl,
+			m("a") + `junk` + cl,
+			m("a") + `<presence xmlns="jabber:client" from="me@example.com"/>` + `<f:close xmlns:f="` + NSFraming + `"/>`,
+			// (an input that simply ends between two elements is a clean io.EOF of the decoder on
+			// this framing - no element is open - and not generated here)
+		}
+		for _, b := range bodies {
+			for _, ps := range patterns {
+				c.wsReal(b, ps, "websocket-real")
+			}
+		}
+	}
 	// requests that expect a response and are over when the input is served: the transmission
 	// failed, or the caller gave up waiting.  Nobody waits any more: a response with that id is
 	// an element like any other and goes to the handler, in arrival order
@@ -1675,6 +1817,22 @@ func (c *ctx) replay(lines []string) error {
 		if len(f) == 2 && f[0] == "#in" && i+1 < len(lines) {
 			in, _ := common.UnHex(f[1])
 			c.header(string(in), strings.HasSuffix(lines[i+1], " 1"))
+			continue
+		}
+		if len(f) == 2 && f[0] == "#wsreal" && i > 0 {
+			b, err := common.UnHex(f[1])
+			if err != nil {
+				return err
+			}
+			g := strings.Fields(lines[i-1])
+			if len(g) < 7 {
+				continue
+			}
+			progs, err := DecProgs(g[6])
+			if err != nil {
+				return err
+			}
+			c.wsReal(string(b), progs, "replay")
 			continue
 		}
 		if len(f) < 2 || f[0] != "#body" || i == 0 {
